@@ -247,7 +247,9 @@ impl World {
                 self.after_injected_panic(&pre, "insert", cb, nth, &BTreeSet::new(), false);
             }
             else {
-                self.unexpected_panic("insert", msg);
+                let credit = present.map(|i| self.side().model.order[i].size).unwrap_or(0);
+                let evicting = entry <= limit && entry > limit - (total - credit).min(limit);
+                self.unexpected_panic_ev("insert", msg, evicting);
             }
             return;
         }
@@ -732,6 +734,19 @@ impl World {
         let ent = pos.map(|i| self.side().model.order[i].clone());
         let kheap = ent.as_ref().map(|e| e.kheap).unwrap_or(0);
         let new_vheap = self.resolve_vheap(size, k, kheap, true);
+        if let Some(e) = &ent {
+            // domain: every sum of size estimates the cache has to form is
+            // representable. A growth that still fits max_size but lifts the
+            // transient total (before older entries are evicted) past
+            // usize::MAX is outside it: the unchanged crate overflows there too
+            let total = self.side().model.total();
+            if new_vheap > e.vheap && total.checked_add(new_vheap - e.vheap).is_none() {
+                self.stats.skipped += 1;
+                self.stats.ev("mutate.skipped-transient-overflow");
+                self.pending_inject = None;
+                return;
+            }
+        }
         let token = 1000 + self.step as u32;
         let late = inj.map(|i| i.2).unwrap_or(false);
         let q = mk_key(k, 0);
@@ -766,7 +781,12 @@ impl World {
                 self.after_injected_panic(&pre, "mutate", cb, nth, &BTreeSet::new(), strict);
             }
             else {
-                self.unexpected_panic("mutate", msg);
+                let evicting = ent.as_ref().map(|e| {
+                    let total = self.side().model.total();
+                    new_vheap > e.vheap && e.size + (new_vheap - e.vheap) <= limit
+                        && (total - e.size) as u128 + (e.size + (new_vheap - e.vheap)) as u128 > limit as u128
+                }).unwrap_or(false);
+                self.unexpected_panic_ev("mutate", msg, evicting);
             }
             return;
         }
@@ -977,7 +997,7 @@ impl World {
             let pat: String = order.iter().enumerate().take(16).map(|(i, e)| if keep(i, e.k) { 'k' } else { 'r' }).collect();
             self.nontrivial("C15", format!("{}|{}", order.len().min(17), pat));
         }
-        let total_kept: usize = kept.iter().map(|e| e.size).sum();
+        let total_kept: usize = kept.iter().fold(0usize, |a, e| a.saturating_add(e.size));
         let n_kept = kept.len();
         for e in &removed {
             self.side_mut().desynced.remove(&e.k);
